@@ -51,6 +51,11 @@ fn decode_at(b: &[u8]) -> Result<(Item, usize), DecodeError> {
 }
 /// strict: canonical lengths only, whole input consumed
 pub fn decode(b: &[u8]) -> Result<Item, DecodeError> {
+    let o = decode_raw(b);
+    if b.len() <= 3000 { crate::trace::rec("rlp_decode", 800, || (crate::trace::h(b), match &o { Ok(i) => crate::trace::h(&encode(i)), Err(_) => "\"error\"".into() })); }
+    o
+}
+fn decode_raw(b: &[u8]) -> Result<Item, DecodeError> {
     let (it, used) = decode_at(b)?;
     if used != b.len() { return Err(DecodeError::TrailingBytes); }
     Ok(it)
